@@ -34,7 +34,7 @@ ASSUMPTIONS = [
     "G1 trees are built with the library's own node constructors (what the parser itself produces)",
     "plug-in clauses are three-valued: only CAN bindings with explicit ids / widths are pinned by the statement",
 ]
-FLOORS = {"one_violation": 0.05, "near_miss_pass": 0.02, "g2": 0.001, "config_dbc": 0.2, "config_can_c": 0.2}
+FLOORS = {"one_violation": 0.05, "near_miss_pass": 0.02, "g2": 0.001, "config_dbc": 0.15, "config_can_c": 0.15}
 CONFIGS = ["general", "dbc", "can_c"]
 
 
